@@ -439,12 +439,11 @@ Definition read_content (d : dialect) (sep : option byte) (outfmt : option str) 
   read_lines d (eff_sep d sep) (match d with Infernal => None | _ => outfmt end) ftype
              (lines_keep (if univ then univ_nl content else content)).
 
-(* domain: ASCII text (the text layer beyond Latin-1 is not modelled), typed tokens without '_' grouping, integer
-   coordinates *)
+(* domain: Latin-1 text (str methods, int() and float() are modelled on code points 0..255; the decoding of the file's
+   bytes is Python's and is exercised by the encoding= stream of the harness), typed tokens without '_' grouping,
+   integer coordinates *)
 Definition wf_C11 (d : dialect) (sep : option byte) (outfmt : option str) (ftype : option str)
            (univ : bool) (content : str) : bool :=
-  all_ascii content && all_ascii (match outfmt with Some o => o | None => [] end) &&
-  all_ascii (match ftype with Some o => o | None => [] end) &&
   fst (read_content d sep outfmt ftype univ content).
 
 (* ------------------------------------------------------------------ rendering results for the harness *)
